@@ -1,7 +1,7 @@
 /*
  * iotrace.so -- LD_PRELOAD shim for the unmodified tool binaries.  Logs every write-class call on the file whose path
  * equals $IOTRACE_PATH to $IOTRACE_LOG as text lines:
- *     W <offset> <length> <hex of data if length <= 65536>      (pwrite64 / write at the tracked file offset)
+ *     W <offset> <length> <hex of data if length <= 65536>      (pwrite64 / write at the tracked file offset; W2/S2 for $IOTRACE_PATH2)
  *     S                                                          (fsync / fdatasync)
  *     T <length>                                                 (ftruncate)
  *     F <mode> <offset> <length>                                 (fallocate)
@@ -24,7 +24,7 @@
 static char tracked[MAXFD];
 static off_t pos[MAXFD];
 static FILE *logf;
-static const char *tpath;
+static const char *tpath, *tpath2;	/* second tracked file (external journal device): events carry the suffix 2 */
 static long nwrites, fail_at = -1;
 static int inited;
 
@@ -33,7 +33,7 @@ static void init(void)
 	const char *l;
 	if (inited) return;
 	inited = 1;
-	tpath = getenv("IOTRACE_PATH");
+	tpath = getenv("IOTRACE_PATH"); tpath2 = getenv("IOTRACE_PATH2");
 	l = getenv("IOTRACE_LOG");
 	if (l) { int fd = ((int (*)(const char *, int, ...)) dlsym(RTLD_NEXT, "open"))(l, O_WRONLY | O_CREAT | O_APPEND, 0644); if (fd >= 0) logf = fdopen(fd, "a"); }
 	if (getenv("IOTRACE_FAIL_AT")) fail_at = atol(getenv("IOTRACE_FAIL_AT"));
@@ -41,13 +41,13 @@ static void init(void)
 static void note_open(int fd, const char *path)
 {
 	init();
-	if (fd >= 0 && fd < MAXFD) { tracked[fd] = tpath && path && !strcmp(path, tpath); pos[fd] = 0; }
+	if (fd >= 0 && fd < MAXFD) { tracked[fd] = (tpath && path && !strcmp(path, tpath)) ? 1 : (tpath2 && path && !strcmp(path, tpath2)) ? 2 : 0; pos[fd] = 0; }
 }
-static void logw(off_t off, const void *buf, size_t n)
+static void logw(int dev, off_t off, const void *buf, size_t n)
 {
 	size_t i; const unsigned char *p = buf;
 	if (!logf) return;
-	fprintf(logf, "W %lld %zu ", (long long) off, n);
+	fprintf(logf, "W%s %lld %zu ", dev == 2 ? "2" : "", (long long) off, n);
 	if (n <= 65536) for (i = 0; i < n; i++) fprintf(logf, "%02x", p[i]);
 	fputc('\n', logf); fflush(logf);
 }
@@ -78,7 +78,7 @@ ssize_t pwrite64(int fd, const void *buf, size_t n, off_t off)
 {
 	typedef ssize_t (*fn)(int, const void *, size_t, off_t); REAL("pwrite64", fn);
 	ssize_t r;
-	if (fd >= 0 && fd < MAXFD && tracked[fd]) { if (inject()) return -1; r = real(fd, buf, n, off); if (r > 0) logw(off, buf, r); return r; }
+	if (fd >= 0 && fd < MAXFD && tracked[fd]) { if (inject()) return -1; r = real(fd, buf, n, off); if (r > 0) logw(tracked[fd], off, buf, r); return r; }
 	return real(fd, buf, n, off);
 }
 ssize_t pwrite(int fd, const void *buf, size_t n, off_t off) { return pwrite64(fd, buf, n, off); }
@@ -86,7 +86,7 @@ ssize_t write(int fd, const void *buf, size_t n)
 {
 	typedef ssize_t (*fn)(int, const void *, size_t); REAL("write", fn);
 	ssize_t r;
-	if (fd >= 0 && fd < MAXFD && tracked[fd]) { if (inject()) return -1; r = real(fd, buf, n); if (r > 0) { logw(pos[fd], buf, r); pos[fd] += r; } return r; }
+	if (fd >= 0 && fd < MAXFD && tracked[fd]) { if (inject()) return -1; r = real(fd, buf, n); if (r > 0) { logw(tracked[fd], pos[fd], buf, r); pos[fd] += r; } return r; }
 	return real(fd, buf, n);
 }
 ssize_t read(int fd, void *buf, size_t n)
@@ -113,13 +113,13 @@ off_t lseek64(int fd, off_t off, int whence)
 int fsync(int fd)
 {
 	typedef int (*fn)(int); REAL("fsync", fn);
-	if (fd >= 0 && fd < MAXFD && tracked[fd] && logf) { fprintf(logf, "S\n"); fflush(logf); }
+	if (fd >= 0 && fd < MAXFD && tracked[fd] && logf) { fprintf(logf, "S%s\n", tracked[fd] == 2 ? "2" : ""); fflush(logf); }
 	return real(fd);
 }
 int fdatasync(int fd)
 {
 	typedef int (*fn)(int); REAL("fdatasync", fn);
-	if (fd >= 0 && fd < MAXFD && tracked[fd] && logf) { fprintf(logf, "S\n"); fflush(logf); }
+	if (fd >= 0 && fd < MAXFD && tracked[fd] && logf) { fprintf(logf, "S%s\n", tracked[fd] == 2 ? "2" : ""); fflush(logf); }
 	return real(fd);
 }
 int ftruncate(int fd, off_t len)
